@@ -416,7 +416,7 @@ func (p *prs) _onBounds(r any, begin, end Token) {
 // stdin: {"<pkg>": {"Limit": n, "Inputs": [[tok ids]...]}} ; stdout: {"<pkg>": [Result...]}.
 func ParserDriverMain(pkgs []string) string {
 	var d strings.Builder
-	d.WriteString("package main\n\nimport (\n\t\"encoding/json\"\n\t\"os\"\n\t\"syscall\"\n\t\"time\"\n")
+	d.WriteString("package main\n\nimport (\n\t\"encoding/json\"\n\t\"fmt\"\n\t\"os\"\n\t\"strconv\"\n\t\"syscall\"\n\t\"time\"\n")
 	for _, p := range pkgs {
 		fmt.Fprintf(&d, "\t%s \"verifscratch/%s\"\n", p, p)
 	}
@@ -426,13 +426,70 @@ func ParserDriverMain(pkgs []string) string {
 	// the process consumed since the parse began bounds what the parse itself consumed, and it
 	// does not grow while a loaded machine keeps the process off the processor (a wall-clock
 	// guard of 6 s reported a 4 749-token sentence as hanging when the load average was 66).
-	// A parse that has burnt GuardSeconds CPU-seconds (five to six orders of magnitude above a
-	// normal parse) is reported as Panic "TIMEOUT" (pbatch confirms it in a process of its own
-	// before a check sees it). Its goroutine keeps spinning and would be charged to the next
+	// The driver runs with GOMAXPROCS=2 (idle garbage-collector workers of a 16-thread runtime
+	// inflate the process's CPU time on a busy machine). A parse that has burnt GuardSeconds
+	// CPU-seconds is reported as Panic "TIMEOUT"; pbatch then confirms it in a process of its own
+	// under a budget six times larger before a check sees it (a genuinely spinning parse exhausts
+	// any budget; a slow one finishes). Its goroutine keeps spinning and would be charged to the next
 	// parse, so every remaining input of the process is marked SKIPPED and re-run by pbatch in a
 	// fresh process. A parse that neither returns nor uses CPU for 10 minutes is "STALLED":
 	// inconclusive, never a verdict.
-	d.WriteString(")\n\ntype job struct {\n\tInputs [][]int\n\tLimits []int\n}\n\nvar timeouts int\n\nfunc cpuNow() time.Duration {\n\tvar ru syscall.Rusage\n\tsyscall.Getrusage(syscall.RUSAGE_SELF, &ru)\n\treturn time.Duration(ru.Utime.Nano() + ru.Stime.Nano())\n}\n\n// guard: why=\"\" when the parse returned, else TIMEOUT / STALLED\nfunc guard(f func() any) (any, string) {\n\tch := make(chan any, 1)\n\tgo func() { ch <- f() }()\n\tc0, t0 := cpuNow(), time.Now()\n\tfor {\n\t\tselect {\n\t\tcase r := <-ch:\n\t\t\treturn r, \"\"\n\t\tcase <-time.After(250 * time.Millisecond):\n\t\t}\n\t\tif cpuNow()-c0 >= " + GuardSeconds + "*time.Second {\n\t\t\ttimeouts++\n\t\t\treturn nil, \"TIMEOUT\"\n\t\t}\n\t\tif time.Since(t0) >= 10*time.Minute {\n\t\t\ttimeouts++\n\t\t\treturn nil, \"STALLED\"\n\t\t}\n\t}\n}\n\nfunc main() {\n\tvar in map[string]job\n\tif err := json.NewDecoder(os.Stdin).Decode(&in); err != nil {\n\t\tpanic(err)\n\t}\n\tout := map[string]any{}\n")
+	d.WriteString(`)
+
+type job struct {
+	Inputs [][]int
+	Limits []int
+}
+
+var timeouts int
+
+func cpuNow() time.Duration {
+	var ru syscall.Rusage
+	syscall.Getrusage(syscall.RUSAGE_SELF, &ru)
+	return time.Duration(ru.Utime.Nano() + ru.Stime.Nano())
+}
+
+// budget of CPU time per parse (seconds), VERIF_GUARD_CPU overrides the default
+var budget = func() time.Duration {
+	n := ` + GuardSeconds + `
+	if v, err := strconv.Atoi(os.Getenv("VERIF_GUARD_CPU")); err == nil && v > 0 {
+		n = v
+	}
+	return time.Duration(n) * time.Second
+}()
+
+// guard: why="" when the parse returned, else TIMEOUT / STALLED
+func guard(f func() any) (any, string) {
+	ch := make(chan any, 1)
+	go func() { ch <- f() }()
+	c0, t0 := cpuNow(), time.Now()
+	for {
+		select {
+		case r := <-ch:
+			if c := cpuNow() - c0; c > time.Second {
+				fmt.Fprintf(os.Stderr, "SLOW-PARSE cpu=%v wall=%v\n", c, time.Since(t0))
+			}
+			return r, ""
+		case <-time.After(250 * time.Millisecond):
+		}
+		if cpuNow()-c0 >= budget {
+			timeouts++
+			return nil, "TIMEOUT"
+		}
+		if time.Since(t0) >= 15*time.Minute {
+			timeouts++
+			return nil, "STALLED"
+		}
+	}
+}
+
+func main() {
+	var in map[string]job
+	if err := json.NewDecoder(os.Stdin).Decode(&in); err != nil {
+		panic(err)
+	}
+	out := map[string]any{}
+`)
 	for _, p := range pkgs {
 		fmt.Fprintf(&d, "\tif j, ok := in[%q]; ok {\n\t\trs := []any{}\n\t\tfor i, w := range j.Inputs {\n\t\t\tif timeouts >= 1 {\n\t\t\t\trs = append(rs, %s.Result{Panic: \"SKIPPED\"})\n\t\t\t\tcontinue\n\t\t\t}\n\t\t\tw, lim := w, j.Limits[i]\n\t\t\tr, why := guard(func() any { return %s.Run(w, lim) })\n\t\t\tif why != \"\" {\n\t\t\t\tr = %s.Result{Panic: why}\n\t\t\t}\n\t\t\trs = append(rs, r)\n\t\t}\n\t\tout[%q] = rs\n\t}\n", p, p, p, p, p)
 	}
@@ -442,7 +499,7 @@ func ParserDriverMain(pkgs []string) string {
 
 // GuardSeconds is the CPU-time budget per parse in the driver, in seconds (a string because it is
 // pasted into the driver's source).
-var GuardSeconds = "8"
+var GuardSeconds = "20"
 
 // Result mirrors the generated package's Result.
 type Result struct {
